@@ -301,6 +301,12 @@ theorem scan_enum_neg {S R : Type} {loop : (S → R) → (S → R) → List (Int
   rw [PyRt.index_zero] at hb
   exact hb
 
+/-- normal forms for exit tests written as a difference (`rel_idx - len_list < 0`, `len_list - rel_idx > 0`) -/
+theorem sub_neg_iff (a b : Int) : a - b < 0 ↔ a < b := by omega
+theorem sub_pos_iff (a b : Int) : 0 < a - b ↔ b < a := by omega
+theorem sub_nonneg_iff (a b : Int) : 0 ≤ a - b ↔ b ≤ a := by omega
+theorem sub_nonpos_iff (a b : Int) : a - b ≤ 0 ↔ a ≤ b := by omega
+
 /-- an index inside the first sub-list stays there (what a "head access" fast path returns) -/
 theorem translate_head (l : List α) (rest : List (List α)) (k : Nat) (h : k < l.length) :
     translate (l :: rest) k = (0, k) := by
